@@ -28,6 +28,8 @@ def rounded_obs(obj, sym, tol=1e-7):
     t = x.to_tensor() if hasattr(x, 'to_tensor') else x
     t = t.copy()
     d = np.asarray(t._data)
+    if not np.all(np.isfinite(d)):
+        return None
     r = np.round(d.real) + (1j * np.round(d.imag) if np.iscomplexobj(d) else 0)
     scale = max(1.0, float(np.max(np.abs(d)))) if d.size else 1.0
     if d.size and float(np.max(np.abs(d - r))) > tol * scale:
@@ -177,7 +179,14 @@ def program(args):
                 big = {'D_total': 4096, 'tol': 1e-13}
                 how = rng.choice(('zipper', 'zipper', 'compress', 'compress-iter'))
                 outs = []
-                z = mps.zipper(objs[m], objs[p], opts_svd=big, normalize=False)
+                exact = mpsx.dense_obs(objs[m] @ objs[p], sym)
+                if not exact['ent']:
+                    continue        # the product is the zero vector: the library has no representation of it for SVD-based routines (division by the norm)
+                try:
+                    z = mps.zipper(objs[m], objs[p], opts_svd=big, normalize=False)
+                except (ValueError, np.linalg.LinAlgError) as ex:
+                    ev.append({'op': 'm_apply', 'a': m + 1, 'b': p + 1, 'N': N, 'ph': 1, 'out': 'zipper raised %s on a non-zero product' % type(ex).__name__, 'via': 'zipper'})
+                    continue
                 if how == 'zipper':
                     outs.append(('zipper', z))
                 elif how == 'compress':
@@ -199,7 +208,7 @@ def program(args):
                 # mps_from_tensor of the dense tensor gives back the same object
                 o0 = ev_obs(ev, a)
                 ten = objs[a].to_tensor() if objs[a].pC is None else None
-                if ten is not None and N >= 1:
+                if ten is not None and N >= 1 and o0['ent']:
                     res = mps.mps_from_tensor(ten, nr_phys=ph, canonize=rng.choice(('last', 'first')), opts_svd={'D_total': 4096, 'tol': 1e-13})
                     o = rounded_obs(res, sym)
                     if o is None:
